@@ -8,6 +8,7 @@ import SuccinctlyVerif.Proof.YamlEmit
 import SuccinctlyVerif.Proof.YamlAnchor
 import SuccinctlyVerif.Proof.YamlResolve
 import SuccinctlyVerif.Proof.YamlBlock
+import SuccinctlyVerif.Proof.YamlBlockScalar
 namespace SV.Props.C15
 open SV.Yaml SV.Yaml.Emit
 
@@ -284,6 +285,32 @@ theorem scalar_reread_core (inFlow : Bool) (s : List Char) (style : Style)
 example : loadScalar coreResolve .blockValue
     (yamlQuoteString .v1 false "0x8000000000000000".toList) ≠
     some (.str "0x8000000000000000".toList) := by decide
+
+/-! ## Literal block scalars on the streaming route -/
+
+/-- `block_scalar_indicator_reread` (PARTIAL): whenever the block-scalar arm of `stream_yaml_value`
+decides for block style (`blockScalarDecision … = some e`: `e` the explicit indentation indicator or
+none), the lines `stream_yaml_block_scalar` writes for a literal scalar under a parent indented `n`
+read back — with that indicator, or by auto-detection when there is none — as exactly the value's
+content lines.  This is the obligation the indicator decision ("the first NON-BLANK content line
+starts with a space") exists for.
+Missing: the last step from content lines to the value (joining with line breaks and the chomping
+indicator's treatment of the final breaks), and the folded style (`widen_folded_breaks`); both are
+covered by the `sbl`/`sloop`/`cli` correspondence. -/
+theorem block_scalar_indicator_reread (n k : Nat) (decoded : List Char) (e : Option Nat)
+    (hd : blockScalarDecision k (n + k) decoded = some e) :
+    readLiteralLines n e (literalBodyLines (n + k) decoded) = some (literalContentLines decoded) :=
+  literal_lines_reread n k decoded e hd
+
+/-- Non-vacuity, and why the decision must look past leading blank lines: for the value
+`"\n  foo\nbar\n"` the decision is "indicator 2"; without it auto-detection takes the first
+non-blank line's own two spaces for indentation and `bar` no longer fits. -/
+example :
+    let v := "\n  foo\nbar\n".toList
+    blockScalarDecision 2 2 v = some (some 2) ∧
+    streamBlockLiteral 2 (some 2) v = "|2\n\n    foo\n  bar".toList ∧
+    readLiteralLines 0 (some 2) (literalBodyLines 2 v) = some (literalContentLines v) ∧
+    readLiteralLines 0 none (literalBodyLines 2 v) = none := by decide
 
 /-! ## Whole documents on the DOM route (block mappings) -/
 
